@@ -693,23 +693,29 @@ theorem run_preamble (cfg : W.Cfg) (env : Env) (p : W.Pos) (fdeB : Bytes) (l : L
     exact this
 
 /-- the outcome of ANY attempt started at p against the Spec master — any handler, any cut, any quiet ending — is the
-    one the Spec computes from the tags of the events that arrived -/
-theorem outcome_lands (cfg : W.Cfg) (env : Env) (h : W.History) (p : W.Pos) (hwf : WFFrom cfg h p)
-    (hl : Lands cfg h p) (hm : MapperAgrees env (unitsFrom cfg h p))
+    one the Spec computes from the tags of the events that arrived; GENERAL FORM: whatever is asked of the units served,
+    as long as their layout from p's file, parsed from the state after the FORMAT_DESCRIPTION event, is `GoodH`
+    (`outcome_lands` below and GV/Lemmas/C15d.lean instantiate it) -/
+theorem outcome_lands_of (cfg : W.Cfg) (env : Env) (h : W.History) (p : W.Pos)
+    (hlen : 27 + p.file.length + (if cfg.crc then 4 else 0) < 2 ^ 32)
+    (hoff : ∀ e ∈ W.fromPos (W.layout cfg h) p, e.next < 2 ^ 32)
+    (hl : Lands cfg h p)
+    (hgood : ∀ o, Bnd (W.layoutAux cfg ((unitsFrom cfg h p).flatMap (W.unitEvs cfg)) p.file o) →
+      GoodH env { PState.init (posOf p) with format := fmtOf cfg } p
+        (W.layoutAux cfg ((unitsFrom cfg h p).flatMap (W.unitEvs cfg)) p.file o))
     (acc : Transaction → Bool) (e : Bool) (tail : List Input) (ht : EndsWith env e tail) (k : Nat) :
     parseEvents env acc (PState.init (posOf p)) (((W.serve cfg h p).take k).map Input.event ++ tail)
       = specOut env.ext acc e ((served cfg h p).take (k - preamble cfg h p)) p := by
   have hart := C01_classify_fde env (PState.init (posOf p)) cfg 4 (some 0) (by decide)
     (by intro n hn; cases hn; decide)
   have hreal := C01_classify_fde env (PState.init (posOf p)) cfg 4 none (by decide) (by simp)
-  obtain ⟨hlen, hu, htb, ha, hoff⟩ := hwf
   rcases served_shape cfg h p hl with hnil | ⟨us₁, us₂, hsplit, hus, hcase⟩
   · have hs := serve_nil cfg h p hnil
     have hpre : preamble cfg h p = 2 := by
       unfold preamble; rw [hs, hnil]; rfl
     rw [hpre, hs, hnil]
     exact run_preamble cfg env p _ [] hlen hart ((goodH_rules env).nil _ p rfl) acc e tail ht k
-  · rw [hus] at hu htb ha hm
+  · rw [hus] at hgood
     rcases hcase with ⟨x, rest, o, hfp, hnf, hlay⟩ | hlay
     · have hs := serve_unit cfg h p x rest hfp hnf
       have hpre : preamble cfg h p = 2 := by
@@ -717,14 +723,14 @@ theorem outcome_lands (cfg : W.Cfg) (env : Env) (h : W.History) (p : W.Pos) (hwf
       change ∀ y ∈ served cfg h p, y.next < 2 ^ 32 at hoff
       rw [hpre, hs, ← hfp]
       rw [hlay] at hoff ⊢
-      exact run_preamble cfg env p _ _ hlen hart (goodH_units cfg env us₂ p _ hu htb ha hm hoff) acc e tail ht k
+      exact run_preamble cfg env p _ _ hlen hart (hgood _ hoff) acc e tail ht k
     · have hs := serve_fileHead cfg h p _ _ hlay rfl
       have hpre : preamble cfg h p = 1 := by
         unfold preamble; rw [hs, hlay]; simp
       change ∀ y ∈ served cfg h p, y.next < 2 ^ 32 at hoff
       rw [hlay] at hoff
       have hb2 := (bnd_cons hoff).2
-      have hg := goodH_units cfg env us₂ p _ hu htb ha hm hb2
+      have hg := hgood _ hb2
       have hbytes : (fdeL cfg p.file).bytes = (W.fdeEvent cfg 4 none).1 := rfl
       rw [hpre, hs, hlay, hbytes]
       have key := run_preamble cfg env p _ _ hlen hreal hg acc e tail ht
@@ -737,6 +743,15 @@ theorem outcome_lands (cfg : W.Cfg) (env : Env) (h : W.History) (p : W.Pos) (hwf
         have := key (k + 2)
         rw [this]
         simp [specOut, fdeL]
+
+/-- … for `WFFrom`: an id names one table among the units served, announcements counted from p (`goodH_units`) -/
+theorem outcome_lands (cfg : W.Cfg) (env : Env) (h : W.History) (p : W.Pos) (hwf : WFFrom cfg h p)
+    (hl : Lands cfg h p) (hm : MapperAgrees env (unitsFrom cfg h p))
+    (acc : Transaction → Bool) (e : Bool) (tail : List Input) (ht : EndsWith env e tail) (k : Nat) :
+    parseEvents env acc (PState.init (posOf p)) (((W.serve cfg h p).take k).map Input.event ++ tail)
+      = specOut env.ext acc e ((served cfg h p).take (k - preamble cfg h p)) p :=
+  outcome_lands_of cfg env h p hwf.fileLen hwf.offsets hl
+    (fun o hb => goodH_units cfg env _ p o hwf.units hwf.tables hwf.announced hm hb) acc e tail ht k
 
 /-! ### Spec side: the position kept after a consumed prefix is a position the master can serve from -/
 
@@ -1123,10 +1138,12 @@ theorem unitsFrom_suffix (cfg : W.Cfg) (h : W.History) (p q : W.Pos) (hs : serve
   exact List.drop_suffix _ _
 
 /-- every file named by what is served from p is short enough for the artificial ROTATE naming it -/
-theorem served_files_short (cfg : W.Cfg) (h : W.History) (p : W.Pos) (hl : Lands cfg h p) (hwf : WFFrom cfg h p) :
+theorem served_files_short_of (cfg : W.Cfg) (h : W.History) (p : W.Pos) (hl : Lands cfg h p)
+    (hlen : 27 + p.file.length + (if cfg.crc then 4 else 0) < 2 ^ 32)
+    (hu : ∀ u ∈ unitsFrom cfg h p, UnitOK cfg u)
+    (hoff : ∀ e ∈ W.fromPos (W.layout cfg h) p, e.next < 2 ^ 32) :
     (∀ x ∈ served cfg h p, 27 + x.file.length + (if cfg.crc then 4 else 0) < 2 ^ 32) ∧
     (∀ x ∈ served cfg h p, ∀ g, x.tag = .rotateTo g → 27 + g.length + (if cfg.crc then 4 else 0) < 2 ^ 32) := by
-  obtain ⟨hlen, hu, _, _, hoff⟩ := hwf
   change ∀ y ∈ served cfg h p, y.next < 2 ^ 32 at hoff
   rcases served_shape cfg h p hl with hnil | ⟨us₁, us₂, _, hus, hcase⟩
   · rw [hnil]; exact ⟨fun x hx => absurd hx List.not_mem_nil, fun x hx => absurd hx List.not_mem_nil⟩
@@ -1162,6 +1179,12 @@ theorem served_files_short (cfg : W.Cfg) (h : W.History) (p : W.Pos) (hl : Lands
         rcases List.mem_cons.mp hx with rfl | hx
         · simp [fdeL] at hg
         · exact k2 x hx g hg
+
+/-- … from `WFFrom` -/
+theorem served_files_short (cfg : W.Cfg) (h : W.History) (p : W.Pos) (hl : Lands cfg h p) (hwf : WFFrom cfg h p) :
+    (∀ x ∈ served cfg h p, 27 + x.file.length + (if cfg.crc then 4 else 0) < 2 ^ 32) ∧
+    (∀ x ∈ served cfg h p, ∀ g, x.tag = .rotateTo g → 27 + g.length + (if cfg.crc then 4 else 0) < 2 ^ 32) :=
+  served_files_short_of cfg h p hl hwf.fileLen hwf.units hwf.offsets
 
 /-- the Spec position after the first m events served from p -/
 def keptPos (cfg : W.Cfg) (h : W.History) (p : W.Pos) (m : Nat) : W.Pos := W.endPosAux ((served cfg h p).take m) p
@@ -1214,22 +1237,19 @@ theorem resumable_next (cfg : W.Cfg) (env : Env) (h : W.History) (p : W.Pos) (hr
     what is served; it accepted exactly the transactions of that prefix, keeps the Spec position after it, did not
     crash, and either made no further call (then m is everything that arrived) or one more call — the next expected
     transaction, labelled with the kept position — which the handler rejected -/
-theorem attempt_spec (cfg : W.Cfg) (env : Env) (h : W.History) (p : W.Pos) (hwf : WFFrom cfg h p)
-    (hl : Lands cfg h p) (hm : MapperAgrees env (unitsFrom cfg h p))
-    (acc : Transaction → Bool) (e : Bool) (tail : List Input) (ht : EndsWith env e tail) (k : Nat)
-    (o : Outcome)
-    (ho : o = parseEvents env acc (PState.init (posOf p)) (((W.serve cfg h p).take k).map Input.event ++ tail)) :
+theorem attempt_spec_of (cfg : W.Cfg) (E : Ext) (h : W.History) (p : W.Pos)
+    (acc : Transaction → Bool) (e : Bool) (k : Nat) (o : Outcome)
+    (ho : o = specOut E acc e ((served cfg h p).take (k - preamble cfg h p)) p) :
     ∃ m, m ≤ min (k - preamble cfg h p) (served cfg h p).length ∧
-      o.accepted = ((W.expected cfg h p).take (doneCount cfg h p m)).map (toTx env.ext) ∧
+      o.accepted = ((W.expected cfg h p).take (doneCount cfg h p m)).map (toTx E) ∧
       o.pos = posOf (keptPos cfg h p m) ∧
       o.crash = false ∧
       ((o.calls = o.accepted ∧ o.err = e ∧ m = min (k - preamble cfg h p) (served cfg h p).length) ∨
        (∃ t, (W.expected cfg h p)[doneCount cfg h p m]? = some t ∧ t.now = keptPos cfg h p m ∧
-          acc (toTx env.ext t) = false ∧ o.calls = o.accepted ++ [toTx env.ext t] ∧ o.err = true)) := by
-  rw [outcome_lands cfg env h p hwf hl hm acc e tail ht k] at ho
+          acc (toTx E t) = false ∧ o.calls = o.accepted ++ [toTx E t] ∧ o.err = true)) := by
   subst ho
   generalize hk : k - preamble cfg h p = k'
-  obtain ⟨m, hm1, h1, h2, h3, h4⟩ := specOut_spec env.ext acc e ((served cfg h p).take k') p
+  obtain ⟨m, hm1, h1, h2, h3, h4⟩ := specOut_spec E acc e ((served cfg h p).take k') p
   have hlen : ((served cfg h p).take k').length = min k' (served cfg h p).length := List.length_take
   rw [hlen] at hm1 h4
   have hmk : m ≤ k' := Nat.le_trans hm1 (Nat.min_le_left _ _)
@@ -1257,6 +1277,22 @@ theorem attempt_spec (cfg : W.Cfg) (env : Env) (h : W.History) (p : W.Pos) (hwf 
     refine ⟨⟨keptPos cfg h p m, ⟨x.file, x.next⟩, x.ts, cs⟩, ?_, rfl, h7, h8, h9⟩
     rw [hexp]
     simp [doneCount]
+
+/-- … for the attempt itself, under `WFFrom` (`outcome_lands`) -/
+theorem attempt_spec (cfg : W.Cfg) (env : Env) (h : W.History) (p : W.Pos) (hwf : WFFrom cfg h p)
+    (hl : Lands cfg h p) (hm : MapperAgrees env (unitsFrom cfg h p))
+    (acc : Transaction → Bool) (e : Bool) (tail : List Input) (ht : EndsWith env e tail) (k : Nat)
+    (o : Outcome)
+    (ho : o = parseEvents env acc (PState.init (posOf p)) (((W.serve cfg h p).take k).map Input.event ++ tail)) :
+    ∃ m, m ≤ min (k - preamble cfg h p) (served cfg h p).length ∧
+      o.accepted = ((W.expected cfg h p).take (doneCount cfg h p m)).map (toTx env.ext) ∧
+      o.pos = posOf (keptPos cfg h p m) ∧
+      o.crash = false ∧
+      ((o.calls = o.accepted ∧ o.err = e ∧ m = min (k - preamble cfg h p) (served cfg h p).length) ∨
+       (∃ t, (W.expected cfg h p)[doneCount cfg h p m]? = some t ∧ t.now = keptPos cfg h p m ∧
+          acc (toTx env.ext t) = false ∧ o.calls = o.accepted ++ [toTx env.ext t] ∧ o.err = true)) := by
+  rw [outcome_lands cfg env h p hwf hl hm acc e tail ht k] at ho
+  exact attempt_spec_of cfg env.ext h p acc e k o ho
 
 /-! ### sequences of attempts -/
 
